@@ -172,3 +172,25 @@ __CPROVER_ensures(DD_in(self, KIDX(e)))
 __CPROVER_ensures(g_k == KIDX(e) || DD_in(self, g_k) == (DD_OLDTOP(self) || S_in(DD_OLDROOT(self), g_k)));
 void h_dd_insert(void){ IN(DD, a); IN(K, k); GHOSTG(uint64_t, g_k); DDN(pLES1_)(&a, &k);
   SATGUARD(wit_a.f0); SATGUARD(!wit_a.f0 && g_k != k.f1 && DD_in(&a, g_k)); SATGUARD(!wit_a.f0 && g_k != k.f1 && !DD_in(&a, g_k)); REACH; }
+/* a + e, a - e (the by-value variants: copy, then += / -=): the operand is untouched (frame), the result is the operand
+ * with e inserted / removed; top stays top (top has e; the complement of a singleton is not representable: over-approximation,
+ * as for operator-= in dd_remove) */
+//@check id=dd_plus fn=_ZN4ikos15discrete_domainI1KEplES1_ props=C19 replace=_ZN4ikos13patricia_treeI1KbSt8equal_toIbEEC2ERKS4_,_ZN4ikos13patricia_treeI1KbSt8equal_toIbEE6insertERKS1_RKb
+void DDN(plES1_)(DD *ret, DD *self, K *e)
+__CPROVER_requires(FRESH(dd_plus, ret, sizeof(DD)) && FRESH(dd_plus, self, sizeof(DD)) && FRESH(dd_plus, e, sizeof(K)) && dd_ok(self))
+__CPROVER_requires(DD_INV_AT(self, g_k))
+__CPROVER_assigns(*ret)
+__CPROVER_ensures(dd_ok(ret) && DD_INV_AT(ret, g_k) && ret->f0 == self->f0)
+__CPROVER_ensures(DD_in(ret, KIDX(e)))
+__CPROVER_ensures(g_k == KIDX(e) || DD_in(ret, g_k) == DD_in(self, g_k));
+void h_dd_plus(void){ IN(DD, a); IN(K, k); DD r; GHOSTG(uint64_t, g_k); DDN(plES1_)(&r, &a, &k);
+  SATGUARD(a.f0); SATGUARD(!a.f0 && g_k != k.f1 && DD_in(&a, g_k)); SATGUARD(!a.f0 && g_k != k.f1 && !DD_in(&a, g_k)); REACH; }
+//@check id=dd_minus fn=_ZN4ikos15discrete_domainI1KEmiES1_ props=C19 replace=_ZN4ikos13patricia_treeI1KbSt8equal_toIbEEC2ERKS4_,_ZN4ikos13patricia_treeI1KbSt8equal_toIbEE6removeERKS1_
+void DDN(miES1_)(DD *ret, DD *self, K *e)
+__CPROVER_requires(FRESH(dd_minus, ret, sizeof(DD)) && FRESH(dd_minus, self, sizeof(DD)) && FRESH(dd_minus, e, sizeof(K)) && dd_ok(self))
+__CPROVER_assigns(*ret)
+__CPROVER_ensures(dd_ok(ret) && ret->f0 == self->f0)
+__CPROVER_ensures(dd_top(ret) || !S_in(SROOT(ret->f1), KIDX(e)))
+__CPROVER_ensures(dd_top(ret) || g_k == KIDX(e) || S_in(SROOT(ret->f1), g_k) == S_in(SROOT(self->f1), g_k));
+void h_dd_minus(void){ IN(DD, a); IN(K, k); DD r; GHOSTG(uint64_t, g_k); DDN(miES1_)(&r, &a, &k);
+  SATGUARD(a.f0); SATGUARD(!a.f0 && g_k != k.f1 && DD_in(&a, g_k)); SATGUARD(!a.f0 && g_k != k.f1 && !DD_in(&a, g_k)); REACH; }
